@@ -22,7 +22,8 @@ def main():
     for d in dirs:
         meta = json.load(open(os.path.join(d, 'meta.json')))
         own = meta['breaks_property']
-        others = [c for c in (meta.get('detected_by') or []) if c != own]
+        others = [c for c in ((meta.get('detected_by') or []) + ((meta.get('first_evaluation') or {}).get('caught_by') or [])) if c != own]
+        others = list(dict.fromkeys(others))
         wt = tempfile.mkdtemp(prefix='selftest_', dir='/tmp')
         os.rmdir(wt)
         try:
